@@ -5,7 +5,7 @@
    `existing.difference_update(...)`) is therefore excluded for this model by a theorem, and the model is
    compared with the real objects (identity and mutability of every rdataset of the universe) on every run. *)
 From DV Require Import Base.Prelude Model.NameM Model.TxnM.
-From DV Require Import Proofs.NameValid Proofs.TxnName Proofs.TxnStore Proofs.TxnSim Proofs.TxnHeap.
+From DV Require Import Proofs.NameValid Proofs.TxnName Proofs.TxnStore Proofs.TxnSim Proofs.TxnThm Proofs.TxnHeap.
 Open Scope Z_scope.
 
 (* ---------------------------------------------------------------- list cells *)
@@ -319,4 +319,58 @@ Proof.
   specialize (K (ov_changed v) (ov_rh v) (ov_nh v) (ov_nodes v)).
   destruct (o_make_immutable (ov_changed v) (ov_rh v, ov_nh v, ov_nodes v)) as [[rh' nh'] m'].
   destruct K as [[_ A] [_ B]]. auto.
+Qed.
+
+(* ---------------------------------------------------------------- all-or-nothing and refusals, object level *)
+Lemma o_step_keeps_zone c o z (t : txn (S:=over)) x z' t' :
+  is_commit o = false -> o_step c o z t = Ok (x, z', t') -> z' = z.
+Proof.
+  intros Hc. destruct o; cbn [o_step]; try discriminate Hc;
+    try (destruct (o_write _ _); cbn [bind]; intros H; inversion H; reflexivity).
+  - destruct (o_update_serial _ _ _ _ _); cbn [bind]; intros H; inversion H; reflexivity.
+  - destruct (t_ended t); [discriminate|]. destruct (name_of_arg n); cbn [bind]; try discriminate.
+    destruct (make_type (AInt ty)); cbn [bind]; try discriminate.
+    destruct (make_type (AInt cov)); cbn [bind]; try discriminate.
+    destruct (o_get_rdataset _ _ _ _ _); cbn [bind]; intros H; inversion H; reflexivity.
+  - destruct (t_ended t); [discriminate|]. destruct (name_of_arg n); cbn [bind]; try discriminate.
+    destruct (o_get_node _ _ _); cbn [bind]; intros H; inversion H; reflexivity.
+  - destruct (t_ended t); [discriminate|]. intros H; inversion H; reflexivity.
+  - destruct (t_ended t); [discriminate|]. intros H; inversion H; reflexivity.
+  - destruct (t_ended t); [discriminate|]. destruct (name_of_arg n); cbn [bind]; try discriminate.
+    destruct (o_get_node _ _ _); cbn [bind]; intros H; inversion H; reflexivity.
+  - unfold o_end. destruct (t_ended t); cbn [bind]; [discriminate|].
+    rewrite andb_false_r. cbn. intros H; inversion H; reflexivity.
+Qed.
+
+Lemma o_exit_rollback_keeps c z t : o_exit c false z t = z.
+Proof. unfold o_exit, o_end. destruct (t_ended t); [reflexivity|]. rewrite andb_false_r. reflexivity. Qed.
+
+(* an exception injected after any number of calls, or raised by a call, leaves the published triple
+   (rdataset objects, node objects, node map) exactly as it was *)
+Theorem o_atomic_crash_point c ops : forall k z t, no_commit ops -> snd (o_run_with c ops (Some k) z t) = z.
+Proof.
+  induction ops as [|o ops IH]; intros k z t Hn.
+  - destruct k; cbn; apply o_exit_rollback_keeps.
+  - inversion Hn as [|? ? Ho Hr]; subst. destruct k as [|k]; cbn [o_run_with]; [cbn; apply o_exit_rollback_keeps|].
+    destruct (o_step c o z t) as [[[x z1] t1]| |] eqn:Es.
+    + pose proof (o_step_keeps_zone c o z t x z1 t1 Ho Es). subst z1.
+      specialize (IH k z t1 Hr). destruct (o_run_with c ops (Some k) z t1). cbn in *. exact IH.
+    + cbn. apply o_exit_rollback_keeps.
+    + cbn. apply o_exit_rollback_keeps.
+Qed.
+
+Theorem o_atomic_no_commit c ops : forall z t, no_commit ops -> snd (o_run_manual c ops z t) = z.
+Proof.
+  induction ops as [|o ops IH]; intros z t Hn; cbn [o_run_manual]; [cbn; apply o_exit_rollback_keeps|].
+  inversion Hn as [|? ? Ho Hr]; subst.
+  destruct (o_step c o z t) as [[[x z1] t1]| |] eqn:Es.
+  - pose proof (o_step_keeps_zone c o z t x z1 t1 Ho Es). subst z1.
+    specialize (IH z t1 Hr). destruct (o_run_manual c ops z t1). cbn in *. exact IH.
+  - specialize (IH z t Hr). destruct (o_run_manual c ops z t). cbn in *. exact IH.
+  - specialize (IH z t Hr). destruct (o_run_manual c ops z t). cbn in *. exact IH.
+Qed.
+
+Theorem o_ended_refuses c o z (t : txn (S:=over)) : t_ended t = true -> o_step c o z t = Lib eAlreadyEnded.
+Proof.
+  intros He. destruct o; cbn [o_step]; unfold o_write, o_update_serial, o_end; rewrite He; reflexivity.
 Qed.
